@@ -48,7 +48,7 @@ CLAIMS = {
             "rights with the rook file on the proper wing, files of rights not held at their defaults), either side to move, both arithmetic modes, get_fen p = Some s and set_fen s = Some p -- "
             "the very same record, key included (C06_fen_roundtrip). Positions reached by play in Chess960 may keep the file of a LOST right in castle_files: for those the string parses back "
             "to the record with such dead files reset (C06_fen_roundtrip_modulo_dead_files, witness theorem) -- the same chess position; the comparison of the run treats castle files of rights "
-            "not held the same way. The converse direction (canonical X-FEN string -> same string) is decided by the correspondence run on canonical strings written by an independent printer.",
+            "not held the same way. Second sentence (C06_canonical_string_reprints): the canonical string of a valid position (the string the printer writes for it) parses, in either arithmetic mode, to a position that prints as the very same string, for every position of D with clocks within i32; that the model's printer writes what an independent X-FEN printer writes is checked by the correspondence run.",
             "DESIGN.md section 6 C06 and section 9", ""),
     "C08": ("proof", "Coq proofs: square attack query = Rules.attacked on the abstract board for both sides and both frames (exhaustive one-square leaper tables lifted by linearity, first-blocker lemma for the slider walks, mirror symmetry of the rules); count_moves = length(legal_moves) for every position (block-by-block, promotion targets split by rank), popcount = enumeration length, perft recursion, capture list = filter; + differential vs the rules (counts, captures, attack queries, perft)",
             "Proof on the model: is_sq_attacked p sq side = the rules' attack relation on abs_state's board, for either side as attacker and either "
